@@ -25,12 +25,12 @@ FINDINGS = [
               "(b'\\x9f', 1) of BIT STRING { a(0) } decodes as 8 bits (per.py rstrip_zeros ignores number_of_bits)",
          witness=dict(kind='roundtrip', spec=HDR + 'A ::= BIT STRING { a(0) }' + END, codec='uper', type='A',
                       value=T([B('9f'), 1]), expected=T([B('80'), 1]))),
-    dict(key='oer-utf8string-fixed-size-octets', props=['C01'],
+    dict(key='oer-utf8string-fixed-size-octets', props=['C01', 'C06'],
          text="OER UTF8String (SIZE (3)) is written as 3 octets without a length determinant: 'åäö' (6 octets) cannot be "
               'decoded (oer.py KnownMultiplierStringType used for UTF8String)',
          witness=dict(kind='roundtrip', spec=HDR + 'A ::= UTF8String (SIZE (3))' + END, codec='oer', type='A',
                       value='åäö')),
-    dict(key='oer-integer-extensible-treated-as-constrained', props=['C01'],
+    dict(key='oer-integer-extensible-treated-as-constrained', props=['C01', 'C06'],
          text='OER INTEGER (0..255, ...): the extensible constraint still selects the unsigned form, value -1 (legal through '
               'the extension marker) is mangled (oer.py:582-589)',
          witness=dict(kind='roundtrip', spec=HDR + 'A ::= INTEGER (0..255, ...)' + END, codec='oer', type='A', value=-1)),
@@ -71,7 +71,7 @@ FINDINGS = [
               'must be separated by exactly one space: "A ::= OCTET  STRING", a newline, a tab or a comment between the words is rejected '
               '(pyparsing Keyword literals containing a space, parser.py:870-928)',
          witness=dict(kind='custom', name='multiword_keyword')),
-    dict(key='size-constraint-on-type-reference-ignored', props=['C19', 'C05'],
+    dict(key='size-constraint-on-type-reference-ignored', props=['C19', 'C05', 'C06'],
          text='a SIZE constraint written on a type reference is ignored by PER/UPER/OER when the reference is a SEQUENCE OF element '
               '(or the referenced type is a BIT STRING / SEQUENCE OF): B ::= BIT STRING  A ::= SEQUENCE OF B (SIZE (1..2)) encodes the '
               'element with an unconstrained length (01 02 80) while SEQUENCE OF BIT STRING (SIZE (1..2)) gives 01 c0 in UPER '
@@ -83,7 +83,7 @@ FINDINGS = [
               'compiler.py:239-243 looks the recursive type up in the wrong module), while the same definitions in one module do: moving a '
               'definition into another module and importing it changes the outcome',
          witness=dict(kind='custom', name='recursive_across_modules')),
-    dict(key='extensibility-implied-not-applied-to-nested-types', props=['C19', 'C05'],
+    dict(key='extensibility-implied-not-applied-to-nested-types', props=['C19', 'C05', 'C06'],
          text='EXTENSIBILITY IMPLIED is only applied to SEQUENCE/SET/CHOICE types reached through members, not to one written as the element '
               'of a SEQUENCE OF / SET OF: with EXTENSIBILITY IMPLIED, T ::= CHOICE { a BOOLEAN }  A ::= SEQUENCE OF T encodes [(a, TRUE)] as '
               '01 40 (extension bit present) but A ::= SEQUENCE OF CHOICE { a BOOLEAN } as 01 80 in UPER (compiler.py:317-334)',
@@ -159,4 +159,15 @@ FINDINGS = [
               'c0 40 00 instead of c0 40 01 00 (the repository tests pin the deviating bytes)',
          witness=dict(kind='encode_expect', spec=HDR + 'A ::= SEQUENCE { a BOOLEAN, ..., n NULL }' + END, codec='uper', type='A',
                       value={'a': True, 'n': None}, expected_hex='c0400100')),
+    dict(key='oer-bmp-universal-string-fixed-size-has-length', props=['C06'],
+         text='OER BMPString and UniversalString with a fixed SIZE are written with a length determinant; they are known-multiplier types '
+              "(X.696 27) and a fixed size is encoded without one: BMPString (SIZE (1)) value 'a' gives 02 0061 instead of 0061",
+         witness=dict(kind='encode_expect', spec=HDR + 'A ::= BMPString (SIZE (1))' + END, codec='oer', type='A', value='a',
+                      expected_hex='0061')),
+    dict(key='oer-addition-group-members-are-separate-additions', props=['C06'],
+         text='OER: the members of an extension addition group get one presence bit and one open type each; X.696 16 treats a group as ONE '
+              'extension addition encoded as a SEQUENCE: SEQUENCE { a BOOLEAN, ..., [[ b NULL, c BOOLEAN OPTIONAL ]], d NULL } value '
+              '{a TRUE, b NULL} gives 80 ff 02 05 80 00 (3 bits: b, c, d) instead of 80 ff 02 06 80 01 00 (2 bits; the group is the SEQUENCE 00)',
+         witness=dict(kind='encode_expect', spec=HDR + 'A ::= SEQUENCE { a BOOLEAN, ..., [[ b NULL, c BOOLEAN OPTIONAL ]], d NULL }' + END,
+                      codec='oer', type='A', value={'a': True, 'b': None}, expected_hex='80ff0206800100')),
 ]
